@@ -1,0 +1,24 @@
+//go:build verif
+
+package docker
+
+// Contracts for the verification framework in /verif (comment-only).
+// ASSUMED: what the container runtime answers through this wrapper, stated against ghost truth.
+//   CtrExists / CtrStatus : docker's view of a container id
+//   SbxExists / SbxNotReady : containerd's view of a pod sandbox id
+//@ ghost CtrExists mset[string]
+//@ ghost CtrStatus mmap[string]string
+//@ ghost SbxExists mset[string]
+//@ ghost SbxNotReady mset[string]
+//@ uninterp grpcCode(e error) mint
+
+// an answer reflects the truth; not-found is reported with the dedicated error type; any other
+// error says nothing about the container
+//@ func (*DockerInterface).DockerInspectContainer trusted
+//@   modifies fresh types.ContainerJSON.*, fresh types.ContainerJSONBase.*, fresh types.ContainerState.*
+//@   ensures result1 == nil ==> result0 != nil && result0.ContainerJSONBase != nil && id in CtrExists && (result0.ContainerJSONBase.State != nil ==> result0.ContainerJSONBase.State.Status == CtrStatus[id])
+//@   ensures result1 != nil && istype(ContainerNotFoundError, result1) ==> !(id in CtrExists)
+//@ func (*DockerInterface).ContainedInspectContainer trusted
+//@   modifies fresh v1.PodSandboxStatus.*, fresh mapsof(map[string]string)
+//@   ensures result1 == nil && result0 != nil ==> id in SbxExists && ((result0.State == 1) <==> id in SbxNotReady)
+//@   ensures result1 != nil && grpcCode(result1) == 5 ==> !(id in SbxExists)
